@@ -440,7 +440,8 @@ def install_spec(reg):
         """the filesystem events of the current loop iteration (all of them outside a loop body) are of these kinds"""
         ops = {it.concrete(o) for o in ops}
         tr = it.ctx.trace
-        start = max([i for i, e in enumerate(tr) if e[0] == "loop-body-start"] + [len(tr)])
+        marks = [i for i, e in enumerate(tr) if e[0] == "loop-body-start"]
+        start = marks[-1] if marks else len(tr)
         return VBool(all(e[1][0] in ops for e in tr[start:] if e[0] == "fs"))
 
     sf["iter_fs_only"] = iter_fs_only
